@@ -1,14 +1,15 @@
-\* G01 quick: one broker, 3 connections, 2 requests, every registration answer / target / message kind
+\* G01 quick (request servicing): 2 connections, 2 concurrent requests, every target
 SPECIFICATION Spec
 CONSTANTS
   NB = 1
-  MaxConn = 3
+  MaxConn = 2
   MaxReq = 2
   MaxTick = 0
   MaxMsg = 1
-  RegAnswers = {"fresh", "same", "nocookie", "refuse", "hangup", "garbage"}
+  RegAnswers = {"fresh", "same", "refuse", "hangup"}
   Targets = {"accept", "refuse", "noaddr"}
-  Msgs = {"alive", "unknown", "malformed"}
+  Msgs = {"unknown", "malformed"}
   Bug = {}
 INVARIANTS TypeOK PresentsLastCookie ContactIsGrant HelloCarriesOwnId AtMostOneReply ReplyMatchesOutcome EveryRequestAnswered ReplyOnOwnOrLaterConn WritesSerialised NoWedge StoppedClean OneConnPerBroker
+
 CHECK_DEADLOCK FALSE
